@@ -7,7 +7,7 @@
    The Go map iteration order used when deletions are synthesized is the `ord` argument of every OpStatus
    inside `ops`, hence universally quantified.  Examples: Proofs.v (ex_converges_hyps, ex_insync_pull). *)
 From Coq Require Import List NArith Bool.
-From Verif.C25 Require Import Model Spec Proofs.
+From Verif.C25 Require Import Model Spec Proofs Extra.
 Import ListNotations.
 Open Scope N_scope.
 
@@ -82,7 +82,62 @@ Print Assumptions c25_queue_deduped.
 
 (* the specification oracle used on the implementation's output accepts every run of the model, for every
    history (so a correspondence failure of the oracle is never an artefact of the oracle itself) *)
-Theorem c25_model_meets_spec : forall ops,
-  ok_case {| c_ops := ops; c_outs := run_obs init ops |} = true.
+Theorem c25_model_meets_spec : forall ops cbs evs,
+  ok_case {| c_ops := ops; c_outs := run_obs init ops; c_cbs := cbs; c_events := evs |} = true.
 Proof. exact model_meets_spec. Qed.
 Print Assumptions c25_model_meets_spec.
+
+(* ---- the consumer's pace and batching (pullNextBatch / sendNextBatchToSinkLockHeld / dropLockAndSendBatch) ---- *)
+
+(* a pull delivers exactly a prefix of the queue, in order; the rest stays queued *)
+Theorem c25_pull_prefix : forall n st its st', pull n st = (its, st') ->
+  its = firstn n (q st) /\ q st' = skipn n (q st).
+Proof. exact pull_prefix. Qed.
+Print Assumptions c25_pull_prefix.
+
+(* downstream consumption at any pace: two pulls in a row are one pull of the summed size (same items, same state) *)
+Theorem c25_pace_irrelevant : forall n m st,
+  pull (n + m) st = let (a, s1) := pull n st in let (b, s2) := pull m s1 in (a ++ b, s2).
+Proof. exact pull_add. Qed.
+Print Assumptions c25_pace_irrelevant.
+
+(* the drain loop (batches of bs >= 1 until empty; bs = 100 in the code) delivers the whole queue, cut into
+   consecutive chunks of bs, ends with an empty queue and in the state of one pull of everything *)
+Theorem c25_drain_is_pull_all : forall bs st, (1 <= bs)%nat ->
+  drain bs st = (chunks bs (q st), snd (pull (length (q st)) st))
+  /\ concat (fst (drain bs st)) = q st
+  /\ q (snd (drain bs st)) = [].
+Proof. exact drain_spec. Qed.
+Print Assumptions c25_drain_is_pull_all.
+
+(* the sink callbacks made from pulled items carry exactly those items in order, whatever the batch size, and
+   OnUpdates is never called with an empty slice *)
+Theorem c25_callbacks_carry_items : forall bs its, (1 <= bs)%nat -> flat_map cb_items (callbacks_of bs its) = its.
+Proof. exact callbacks_of_flat. Qed.
+Print Assumptions c25_callbacks_carry_items.
+
+Theorem c25_no_empty_onupdates : forall its, Forall nonempty_cb (send_batch its).
+Proof. exact send_batch_nonempty. Qed.
+Print Assumptions c25_no_empty_onupdates.
+
+(* ---- through the syncclient (Model.client_ops: what Start's reconnect goroutine and loop() call) ---- *)
+
+(* for every sequence of wire events (connections, KV and status messages, drops, consumer pulls): once an in-sync
+   message has arrived on the latest connection and the queue is drained, the sink holds exactly what the latest
+   connection sent *)
+Theorem c25_client_converges : forall evs,
+  wire_resync_pending evs = false -> q (fst (run (client_ops evs))) = [] ->
+  forall k, sink_view (snd (run (client_ops evs))) k = last_conn_view evs k.
+Proof. exact client_converges. Qed.
+Print Assumptions c25_client_converges.
+
+(* and the restart announcement is necessary: a client that reconnects with only the WaitForDatastore status
+   leaves a vanished resource at the sink (witness: Extra.silent_evs) *)
+Theorem c25_silent_reconnect_refuted :
+  wire_resync_pending silent_evs = false /\
+  q (fst (run (flat_map silent_client_op silent_evs))) = [] /\
+  sink_view (snd (run (flat_map silent_client_op silent_evs))) 2 = Some 1 /\
+  last_conn_view silent_evs 2 = None /\
+  sink_view (snd (run (client_ops silent_evs))) 2 = None.
+Proof. exact silent_client_refuted. Qed.
+Print Assumptions c25_silent_reconnect_refuted.
